@@ -246,7 +246,7 @@ impl StateMachine<'_> {
 
     /// As `should_handle`, for the file header. With `diff -u` input a header can be pending in
     /// any state, including states which have no style of their own.
-    fn should_handle_diff_header(&self) -> bool {
+    pub fn should_handle_diff_header(&self) -> bool {
         let style = &self.config.file_style;
         !(style.is_raw && style.decoration_style == DecorationStyle::NoDecoration)
     }
